@@ -2,10 +2,13 @@ package main
 
 // C14, kind 1404: the real copy.Copy inside the jail vs the syscall-level model Model/CopyFs.v.
 //
-// input : (ops srcRoot src dstRoot dst (follow wildcards alwaysReplace dirContents chown utime mode))
+// input : (ops srcRoot src dstRoot dst (follow wildcards alwaysReplace dirContents chown utime mode [include exclude]))
+//         include / exclude = lists of pattern strings (absent in old corpus cases)
 //         ops build the whole jail (source root, destination root, an outside area) in the
 //         encoding of kind 0301; chown = () | (uid gid); utime = () | (ns); mode = () | (bits)
-// output: (op-results snapshot-before matches err snapshot-after (dstRoot-ino-before dstRoot-ino-after))
+// output: (op-results snapshot-before matches err snapshot-after (dstRoot-ino-before dstRoot-ino-after) pmatch-table)
+//         pmatch-table = ((cleanedPattern path bool) ...): the real single-pattern results of moby/patternmatcher
+//         for every relative path below srcRoot (the matcher is an input of the model)
 //         matches = () without wildcards, (0 (m ...)) | (1) = what the real ResolveWildcards returned
 //         (wildcard expansion is an input of the model); err = 0 | 1 | 2 (panic)
 // Snapshots cover the WHOLE jail: every path, hard-link class, type, mode, owner, mtime ("now" mark),
@@ -54,6 +57,20 @@ func c14copyChild(in Sx) Sx {
 		m := int(o[6].L[0].U64())
 		ci.Mode = &m
 	}
+	var pats []string
+	if len(o) >= 9 {
+		for _, x := range o[7].L {
+			ci.IncludePatterns = append(ci.IncludePatterns, x.Str())
+		}
+		for _, x := range o[8].L {
+			ci.ExcludePatterns = append(ci.ExcludePatterns, x.Str())
+		}
+		pats = append(append(pats, ci.IncludePatterns...), ci.ExcludePatterns...)
+	}
+	table := L()
+	if len(pats) > 0 {
+		table = L(pmatchTable(pats, withPrefixes(c14RelPaths(srcRoot)))...)
+	}
 	matches := L()
 	if ci.AllowWildcards {
 		ms, err := fscopy.ResolveWildcards(srcRoot, src, ci.FollowLinks)
@@ -83,7 +100,36 @@ func c14copyChild(in Sx) Sx {
 		}
 	}()
 	unix.Chdir("/")
-	return L(built.L[0], built.L[1], matches, res, c03Snapshot("/", t0), L(N(dinoBefore), N(c14Ino(dstRoot))))
+	return L(built.L[0], built.L[1], matches, res, c03Snapshot("/", t0), L(N(dinoBefore), N(c14Ino(dstRoot))), table)
+}
+
+// every path below root relative to each of its ancestors at or below root ("a/b/c", "b/c", "c"):
+// the srcComponents copier.copy can see, whatever directory the top-level source is
+func c14RelPaths(root string) []string {
+	seen := map[string]bool{}
+	var out []string
+	var rec func(abs string, rel []string)
+	rec = func(abs string, rel []string) {
+		es, err := os.ReadDir(abs)
+		if err != nil {
+			return
+		}
+		for _, e := range es {
+			r := append(append([]string{}, rel...), e.Name())
+			for i := range r {
+				p := strings.Join(r[i:], "/")
+				if !seen[p] {
+					seen[p] = true
+					out = append(out, p)
+				}
+			}
+			if e.IsDir() {
+				rec(abs+"/"+e.Name(), r)
+			}
+		}
+	}
+	rec(root, nil)
+	return out
 }
 
 // ---------------------------------------------------------------- generator
@@ -150,6 +196,15 @@ func c14cPopulate(r *Rng, ops *[]Sx, root, tag string, n int) (files []string, l
 	return
 }
 
+// include / exclude patterns over the name universe: deep names (so that parents are deferred),
+// globs, "**", exclusions
+func c14cPattern(r *Rng) string {
+	n := Pick(r, c14cNames)
+	m := Pick(r, c14cNames)
+	k := Pick(r, c14cNames)
+	return Pick(r, []string{n + "/" + m, n + "/" + m, n + "/" + m + "/" + k, "*/" + m, "**/" + m, n + "/*", n, "!" + n + "/" + m, n + "/**", "?/" + m + "/*"})
+}
+
 func c14GenCopy(g *Gen) {
 	n := g.Vol(1200, 25000)
 	srcArgs := []string{"/", ".", "a", "b", "d", "l", "f", "a/b", "a/..", "../o", "/../o/f", "l/f", "d/f", "*", "?/*", "a/", "../../o/d", "a/*", "[ab]"}
@@ -176,6 +231,15 @@ func c14GenCopy(g *Gen) {
 		if !r.Chance(20) {
 			dfiles, l2 = c14cPopulate(r, &ops, "/dst", "D", r.Intn(9))
 		}
+		if r.Chance(30) {
+			// a destination symlink (or file) where a source DIRECTORY name is: the position of a deferred parent
+			nm := Pick(r, c14cNames)
+			if r.Chance(75) {
+				add(L(N(7), S(Pick(r, []string{"/o", "/o/d", "../o", "../o/d"})), S("/dst/"+nm)))
+			} else {
+				add(L(N(9), S("/dst/"+nm), Bool(true), N(0644), N(0), S("D:blocker")))
+			}
+		}
 		if len(dfiles) > 0 && r.Chance(30) {
 			add(L(N(8), S(Pick(r, dfiles)), S("/o/h"))) // an inode of the destination also linked from outside
 		}
@@ -183,6 +247,35 @@ func c14GenCopy(g *Gen) {
 			add(L(N(16), S("/dst"), N(c14OldTime+77)))
 		}
 		srcArg, dstArg := Pick(r, srcArgs), Pick(r, dstArgs)
+		// flavour "deferred parent": a selected entry D/N below an unselected directory D whose place in
+		// the destination is taken by a symlink to an outside directory that has an entry N (or by a
+		// real directory / a file, for contrast)
+		deferred := r.Chance(12)
+		var dD, dN string
+		if deferred {
+			dD = Pick(r, c14cNames)
+			out := Pick(r, []string{"/o", "/o", "/o/d", "../o", "../o/d"})
+			if strings.HasSuffix(out, "/d") {
+				dN = "a"
+			} else {
+				dN = Pick(r, []string{"f", "d", "l"})
+			}
+			add(L(N(5), S("/src/"+dD), N(0755)))
+			if r.Chance(70) {
+				add(L(N(9), S("/src/"+dD+"/"+dN), Bool(true), N(0644), N(0), S("S:sel")))
+			} else {
+				add(L(N(5), S("/src/"+dD+"/"+dN), N(0755)))
+			}
+			switch x := r.Intn(10); {
+			case x < 7:
+				add(L(N(7), S(out), S("/dst/"+dD)))
+			case x < 9:
+				add(L(N(5), S("/dst/"+dD), N(0755)))
+			default:
+				add(L(N(9), S("/dst/"+dD), Bool(true), N(0644), N(0), S("D:blocker")))
+			}
+			srcArg, dstArg = Pick(r, []string{"/", ".", "/"}), Pick(r, []string{"/", ".", ""})
+		}
 		wild := strings.ContainsAny(srcArg, "*?[") || r.Chance(10)
 		opt := func(p int, x Sx) Sx {
 			if r.Chance(p) {
@@ -190,13 +283,42 @@ func c14GenCopy(g *Gen) {
 			}
 			return L()
 		}
-		o := L(Bool(r.Chance(50)), Bool(wild), Bool(r.Chance(30)), Bool(r.Chance(30)),
+		var inc, exc []Sx
+		if r.Chance(35) {
+			for k := 0; k < 1+r.Intn(2); k++ {
+				inc = append(inc, S(c14cPattern(r)))
+			}
+		}
+		if r.Chance(20) {
+			for k := 0; k < 1+r.Intn(2); k++ {
+				exc = append(exc, S(c14cPattern(r)))
+			}
+		}
+		always := r.Chance(30)
+		if len(inc) > 0 {
+			always = r.Chance(60) // deferred parents x always-replace: removal must not go through a symlinked parent
+		}
+		if deferred {
+			inc = []Sx{S(dD + "/" + dN)}
+			if r.Chance(30) {
+				inc = append(inc, S(c14cPattern(r)))
+			}
+			always = r.Chance(85)
+		}
+		o := L(Bool(r.Chance(50)), Bool(wild), Bool(always), Bool(r.Chance(30)),
 			opt(25, L(N(uint64(Pick(r, []int{0, 1000, 7}))), N(uint64(Pick(r, []int{0, 1000, 9}))))),
 			opt(25, L(N(c14OldTime+5000000000))),
-			opt(20, L(N(uint64(Pick(r, []int{0700, 0751, 0644, 02750}))))))
+			opt(20, L(N(uint64(Pick(r, []int{0700, 0751, 0644, 02750}))))),
+			L(inc...), L(exc...))
 		in := L(L(ops...), S("/src"), S(srcArg), S("/dst"), S(dstArg), o)
 		out := g.Emit(0x1404, in, l1+l2 >= 2, fmt.Sprintf("copyfs follow=%v wild=%v", o.L[0].IsTrue(), wild))
-		if len(out.L) == 6 && out.L[3].Kind == 'n' {
+		if len(inc)+len(exc) > 0 {
+			g.classes["copyfs-patterns"]++
+		}
+		if deferred {
+			g.classes["copyfs-deferred-parent"]++
+		}
+		if len(out.L) == 7 && out.L[3].Kind == 'n' {
 			switch out.L[3].Int() {
 			case 0:
 				g.classes["copyfs-ok"]++
